@@ -46,13 +46,15 @@ var genSwitches = map[string]bool{
 	"default.emptyList":      true,
 	"default.struct.list":    true, // a list inside a struct default (cog's CUE front-end: "closed lists are not supported")
 	// known-bad constructs: cog generates code that does not compile / import (see LAB.md, "Known failures")
-	"default.list.nonString":   true, // list default of numbers/bools is emitted as []string{…}
-	"enumI.signCollision":      true, // 1 and -1 in one integer enum: member names collide (JSON Schema / OpenAPI)
-	"def.enum.single":          true, // named one-member string enum: CUE reads a constant, references to it break the Go output
-	"default.struct.enumField": true, // struct default overriding an enum-typed member: Go type `unknown`
-	"name.defCase":             true, // definition names like sub_item / dataPoint: Python refers to the unconverted name
-	"dict.nonScalar.noArray":   true, // a map of non-scalars in a package without any array of non-scalars: "strconv" imported and not used
-	"default.onRecursiveRef":   true, // default on a reference that closes a cycle: CUE reports a structural cycle
+	"default.list.nonString":      true, // list default of numbers/bools is emitted as []string{…}
+	"enumI.signCollision":         true, // 1 and -1 in one integer enum: member names collide (JSON Schema / OpenAPI)
+	"def.enum.single":             true, // named one-member string enum: CUE reads a constant, references to it break the Go output
+	"default.struct.enumField":    true, // struct default overriding an enum-typed member: Go type `unknown`
+	"name.defCase":                true, // definition names like sub_item / dataPoint: Python refers to the unconverted name
+	"elem.nullable.struct":        true, // (nullable struct) elements: the strict decoder rejects the null entry, Python from_json raises
+	"elem.nullable.underNullable": true, // nullable elements inside a nullable member: a disjunction nested in a disjunction branch (C06)
+	"dict.nonScalar.noArray":      true, // a map of non-scalars in a package without any array of non-scalars: "strconv" imported and not used
+	"default.onRecursiveRef":      true, // default on a reference that closes a cycle: CUE reports a structural cycle
 }
 
 func defaultGenOpts() GenOpts {
@@ -136,7 +138,7 @@ var forceList = []string{"any", "string.minLen", "const.string", "int.narrow", "
 
 // forceList2: a second, short cycle (one entry per case index) of shapes that need two cooperating
 // sites or a particular spelling to matter: each comes back every len(forceList2) cases.
-var forceList2 = []string{"int.nullablePlain", "sharedshape", "def.scalar", "union.plain"}
+var forceList2 = []string{"int.nullablePlain", "sharedshape", "def.scalar", "union.plain", "elem.nullable"}
 
 func genDefs(seed uint64, index int, o GenOpts) *Defs {
 	g := &srcGen{r: newRng(seed*0x1000193 + uint64(index)*0x9E3779B1 + 17), o: o, d: &Defs{},
@@ -317,6 +319,9 @@ func (g *srcGen) genField(name string, depth int) Field {
 	if f.Ty.Kind == SAny {
 		f.Nullable = false // `any` admits null already
 	}
+	if f.Nullable && g.o.avoid("elem.nullable.underNullable") && hasNullableElem(f.Ty) {
+		f.Nullable = false
+	}
 	return f
 }
 
@@ -380,15 +385,15 @@ func (g *srcGen) genTy(depth int, guarded bool) *Src {
 		}
 		return g.genLeaf()
 	case "array":
-		return srcArray(g.genTy(depth+1, true))
+		return srcArray(g.maybeNullableElem(g.genTy(depth+1, true)))
 	case "dict":
 		for try := 0; try < 8; try++ {
 			e := g.genTy(depth+1, true)
 			if !g.o.avoid("dict.of.struct") || !g.structLike(e) {
-				return srcDict(e)
+				return srcDict(g.maybeNullableElem(e))
 			}
 		}
-		return srcDict(g.genLeaf())
+		return srcDict(g.maybeNullableElem(g.genLeaf()))
 	case "struct.nested":
 		return g.genStruct(depth, false)
 	case "oneOfScalars":
@@ -399,9 +404,49 @@ func (g *srcGen) genTy(depth int, guarded bool) *Src {
 	return srcBool()
 }
 
+func hasNullableElem(s *Src) bool {
+	switch s.Kind {
+	case SNullable:
+		return true
+	case SArray, SDict:
+		return hasNullableElem(s.Elem)
+	}
+	return false
+}
+
+// nullableElemOK: the element kinds the grammar allows under (nullable …).
+func nullableElemOK(e *Src) bool {
+	switch e.Kind {
+	case SBool, SString, SInt, SNum, SEnumS, SEnumI, SRef, SConst, SStruct:
+		return true
+	}
+	return false
+}
+
+func (g *srcGen) maybeNullableElem(e *Src) *Src {
+	if g.o.avoid("elem.nullable") || !nullableElemOK(e) || !g.r.chance(18) {
+		return e
+	}
+	if g.o.avoid("elem.nullable.struct") {
+		// struct-valued elements (inline or through a reference) are a known trouble spot
+		if e.Kind == SStruct {
+			return e
+		}
+		if e.Kind == SRef {
+			switch g.pendKind[e.Ref] {
+			case "enumS", "enumI", "scalar":
+			default:
+				return e
+			}
+		}
+	}
+	return srcNullable(e)
+}
+
 // structLike: the element kinds for which a Go map triggers the unused-strconv defect of the
 // strict unmarshaller (struct, reference to a struct, any union, or a map of those).
 func (g *srcGen) structLike(e *Src) bool {
+	e, _ = e.unwrap()
 	switch e.Kind {
 	case SStruct, SOneOfStructs, SOneOfScalars:
 		return true
@@ -763,6 +808,16 @@ func (g *srcGen) force2(tag string) {
 			f := Field{Name: g.fieldName(taken), Ty: u.clone(), Required: false}
 			holder.Fields = append(holder.Fields[:pos:pos], append([]Field{f}, holder.Fields[pos:]...)...)
 		}
+	case "elem.nullable":
+		if o.avoid("array") {
+			return
+		}
+		in := pick(g.r, []*Src{srcNum(64, nil, nil), srcString(), srcInt(64, true, nil, nil), srcBool(), g.genInt(), g.genString()})
+		ty := srcArray(srcNullable(in))
+		if !o.avoid("dict") && g.r.chance(30) {
+			ty = srcDict(srcNullable(in))
+		}
+		g.addRootField(Field{Ty: ty, Required: g.r.chance(50)})
 	case "def.scalar":
 		if o.avoid("ref") {
 			return
@@ -1037,7 +1092,7 @@ func (d *Defs) refsOf(s *Src, f func(name string)) {
 	switch s.Kind {
 	case SRef:
 		f(s.Ref)
-	case SArray, SDict:
+	case SArray, SDict, SNullable:
 		d.refsOf(s.Elem, f)
 	case SStruct:
 		for _, fl := range s.Fields {
@@ -1073,6 +1128,7 @@ func (d *Defs) reachable() map[string]bool {
 // scalarLike: what cog's strict unmarshaller treats as a scalar element (scalar or enum after
 // resolving references).
 func (d *Defs) scalarLike(e *Src) bool {
+	e, _ = e.unwrap()
 	e = d.resolve(e)
 	if e == nil {
 		return true
@@ -1092,22 +1148,28 @@ func (d *Defs) strconvShape() (nonScalarMap, nonScalarArray bool) {
 	visit = func(s *Src) {
 		switch s.Kind {
 		case SArray:
-			in := d.resolve(s.Elem) // arrays of arrays count by their innermost element
+			in, _ := s.Elem.unwrap() // arrays of arrays count by their innermost element
+			in = d.resolve(in)
 			for in != nil && in.Kind == SArray {
-				in = d.resolve(in.Elem)
+				in, _ = in.Elem.unwrap()
+				in = d.resolve(in)
 			}
 			if in != nil && !d.scalarLike(in) {
 				nonScalarArray = true
 			}
 			visit(s.Elem)
 		case SDict:
-			in := d.resolve(s.Elem) // maps of maps likewise
+			in, _ := s.Elem.unwrap() // maps of maps likewise
+			in = d.resolve(in)
 			for in != nil && in.Kind == SDict {
-				in = d.resolve(in.Elem)
+				in, _ = in.Elem.unwrap()
+				in = d.resolve(in)
 			}
 			if in != nil && !d.scalarLike(in) {
 				nonScalarMap = true
 			}
+			visit(s.Elem)
+		case SNullable:
 			visit(s.Elem)
 		case SStruct:
 			for _, f := range s.Fields {
@@ -1175,7 +1237,7 @@ func (g *srcGen) addDefaults() {
 	var visit func(s *Src)
 	visit = func(s *Src) {
 		switch s.Kind {
-		case SArray, SDict:
+		case SArray, SDict, SNullable:
 			visit(s.Elem)
 		case SStruct:
 			for i := range s.Fields {
